@@ -102,6 +102,18 @@ def decls(terms):
     return out
 
 
+def refname(t):
+    """spelling of `T Referenz` in a parameter list"""
+    n = texpr(t)
+    if t["k"] == "l":
+        return n + "n Referenz"
+    if t["k"] == "p":
+        return {"Z": "Zahlen Referenz", "K": "Kommazahlen Referenz", "C": "Buchstaben Referenz"}.get(t["n"], n + " Referenz")
+    if t["k"] == "v":
+        return "Variablen Referenz"
+    return n + " Referenz"
+
+
 def std(v):
     return "(der Standardwert von %s %s)" % ("einer" if gender(v) == "f" else "einem", texpr(v))
 
@@ -111,7 +123,9 @@ def program(T, values, universe):
     ret = ("eine " if gender(T) == "f" else "einen ") + ("Buchstaben" if T == {"k": "p", "n": "C"} else texpr(T))
     lines = "\n".join(decls(universe)).split("\n")
     lines += ["", "Die Funktion f_arg mit dem Parameter p vom Typ %s, gibt nichts zurück, macht:" % texpr(T), "\tVerlasse die Funktion.",
-              "Und kann so benutzt werden:", '\t"nimm <p>"', ""]
+              "Und kann so benutzt werden:", '\t"nimm <p>"', "",
+              "Die Funktion f_ref mit dem Parameter p vom Typ %s, gibt nichts zurück, macht:" % refname(T), "\tVerlasse die Funktion.",
+              "Und kann so benutzt werden:", '\t"nimm die Referenz <p>"', ""]
     where = []
     for i, V in enumerate(values):
         m = {}
@@ -120,6 +134,11 @@ def program(T, values, universe):
         lines.append("Speichere %s in xa%d." % (std(V), i)); m["assign"] = len(lines)
         lines.append("%s %s xc%d ist %s als %s." % (art, texpr(T), i, std(V), texpr(T))); m["cast"] = len(lines)
         lines.append("nimm %s." % std(V)); m["arg"] = len(lines)
+        # conversions in a reference context: a variable of type V re-interpreted as T in place
+        artv = "Die" if gender(V) == "f" else "Der"
+        lines.append("%s %s xr%d ist %s." % (artv, texpr(V), i, std(V)))
+        lines.append("Speichere %s in xr%d als %s." % (std(T), i, texpr(T))); m["refassign"] = len(lines)
+        lines.append("nimm die Referenz (xr%d als %s)." % (i, texpr(T))); m["refarg"] = len(lines)
         lines.append("Die Funktion g%d gibt %s zurück, macht:" % (i, ret))
         lines.append("\tGib %s zurück." % std(V)); m["ret"] = len(lines)
         lines += ["Und kann so benutzt werden:", '\t"hole%d"' % i, ""]
@@ -195,7 +214,7 @@ def run(tier):
         else:
             key = "C14:pos:%s<-%s" % (enc(ev["t"]), enc(ev["v"]))
             ck.fail(key, "positions for target %s, value %s: observed %s contradicts DDPTypes (Assignable/ArgOK/RetOK/CastOK)" % (
-                texpr(ev["t"]), texpr(ev["v"]), {k: ev[k] for k in ("init", "assign", "cast", "arg", "ret")}), ev)
+                texpr(ev["t"]), texpr(ev["v"]), {k: ev[k] for k in ("init", "assign", "cast", "arg", "ret", "refassign", "refarg") if k in ev}), ev)
     ck.sample(recs[0]); ck.sample(recs[-1])
     ck.cov["rule"] = ("every ordered pair of the type universe of the tier's depth for Equal on constructed types; every ordered pair (target, value) of the "
                       "DDP-expressible depth<=2 universe (quick: all base targets + 30 seed-chosen others) for the five positions; each pair is distinct")
